@@ -602,3 +602,226 @@ def file_loaders_agree(fi: int, via_cli: bool) -> bool:
     sr = snapshot(ref)
     ok = (not _diff(sr, snapshot(a))) and (not _diff(sr, snapshot(b)))
     return done(ok, key=name, value=val, via_cli=via_cli)
+
+
+# ---------------------------------------------------------------- bind strings -> sockets
+
+
+class _RecSock:
+    def __init__(self, mod, family=None, type_=None, fileno=None) -> None:
+        self.mod = mod
+        self.family = family
+        self.type = type_
+        self.fileno_ = fileno
+        self.bound = None
+        self.opts = []
+        self.blocking = None
+
+    def setsockopt(self, level, name, value) -> None:
+        self.opts.append((level, name, value))
+
+    def getsockopt(self, level, name):
+        return self.mod.fd_types.get(self.fileno_, self.mod.SOCK_STREAM)
+
+    def bind(self, addr) -> None:
+        self.bound = addr
+
+    def setblocking(self, flag) -> None:
+        self.blocking = flag
+
+    def set_inheritable(self, flag) -> None:
+        pass
+
+
+class _FakeSocketModule:
+    """Recorder standing in for the `socket` module inside hypercorn.config."""
+
+    AF_INET, AF_INET6, AF_UNIX = _socket.AF_INET, _socket.AF_INET6, _socket.AF_UNIX
+    SOCK_STREAM, SOCK_DGRAM = _socket.SOCK_STREAM, _socket.SOCK_DGRAM
+    SOL_SOCKET, SO_REUSEADDR, SO_REUSEPORT, SO_TYPE = _socket.SOL_SOCKET, _socket.SO_REUSEADDR, getattr(_socket, "SO_REUSEPORT", 15), _socket.SO_TYPE
+    IPPROTO_TCP, TCP_NODELAY = _socket.IPPROTO_TCP, _socket.TCP_NODELAY
+    SocketKind = _socket.SocketKind
+
+    def __init__(self) -> None:
+        self.created = []
+        self.fd_types = {}
+
+    def socket(self, family=None, type=None, fileno=None):
+        s = _RecSock(self, family, type, fileno)
+        self.created.append(s)
+        return s
+
+
+class _FakeOS:
+    def __init__(self) -> None:
+        self.removed = []
+
+    def stat(self, path):
+        raise FileNotFoundError(path)
+
+    def remove(self, path) -> None:
+        self.removed.append(path)
+
+    def umask(self, m):
+        return 0o22
+
+    def chown(self, *a) -> None:
+        pass
+
+    def fspath(self, p):
+        return os.fspath(p)
+
+    PathLike = os.PathLike
+
+
+_HOSTS4 = ["127.0.0.1", "0.0.0.0", "localhost", "a", "a.b", "1"]
+_HOSTS6 = ["::", "::1", "fe80::1", "1:2"]
+_PORTS = [0, 1, 80, 8000, 65535]
+
+
+@harness(
+    "C19",
+    dom={"shape": (0, 5), "hi": (0, 5), "pi": (0, 4), "dgram": "bool", "workers": (1, 2), "fdn": (0, None)},
+    split={"shape": "each"},
+    witnesses=[{"shape": 0, "hi": 0, "pi": 3, "dgram": False, "workers": 1, "fdn": 3}, {"shape": 2, "hi": 1, "pi": 2, "dgram": True, "workers": 2, "fdn": 3},
+               {"shape": 4, "hi": 0, "pi": 0, "dgram": False, "workers": 1, "fdn": 33}],
+    budget=60,
+    bounds="bind shapes {host:port, bare host, [v6]:port, [v6], unix:path, fd://n} x 6 IPv4/host names x 4 IPv6 literals x 5 boundary ports x stream/datagram x workers 1|2; fd number any int >= 0",
+    encodes=["hypercorn/config.py::Config._create_sockets"],
+    stubs=["hypercorn.config.socket and hypercorn.config.os replaced by recorders (no real sockets, no filesystem)"],
+)
+def bind_parsing(shape: int, hi: int, pi: int, dgram: bool, workers: int, fdn: int) -> bool:
+    """
+    pre: DOM(bind_parsing, shape=shape, hi=hi, pi=pi, dgram=dgram, workers=workers, fdn=fdn)
+    post: _
+    """
+    enter()
+    shape = conc(shape, 0, 5)
+    hi = conc(hi, 0, 5)
+    port = _PORTS[conc(pi, 0, 4)]
+    dgram = True if dgram else False
+    workers = conc(workers, 1, 2)
+    type_ = _socket.SOCK_DGRAM if dgram else _socket.SOCK_STREAM
+    fake = _FakeSocketModule()
+    fos = _FakeOS()
+    want_fd = None
+    if shape == 0:
+        host = _HOSTS4[hi]
+        bind = f"{host}:{port}"
+        want = (_socket.AF_INET, (host, port))
+    elif shape == 1:
+        host = _HOSTS4[hi]
+        bind = host
+        want = (_socket.AF_INET, (host, 8000))
+        if host == "1":
+            return done(True, skipped="a bare number is ambiguous")
+    elif shape == 2:
+        host = _HOSTS6[hi % 4]
+        bind = f"[{host}]:{port}"
+        want = (_socket.AF_INET6, (host, port))
+    elif shape == 3:
+        host = _HOSTS6[hi % 4]
+        if host in ("1:2",) or host.rsplit(":", 1)[-1].isdigit():
+            return done(True, skipped="a bracketed address without port whose last group is numeric is ambiguous by construction")
+        bind = f"[{host}]"
+        want = (_socket.AF_INET6, (host, 8000))
+    elif shape == 4:
+        path = ["/tmp/h.sock", "rel.sock", "/a:b/c.sock"][hi % 3]
+        bind = "unix:" + path
+        want = (_socket.AF_UNIX, path)
+    else:
+        fake.fd_types[fdn] = type_
+        bind = "fd://" + str(fdn)
+        want = None
+        want_fd = fdn
+    saved_socket, saved_os = hconfig.socket, hconfig.os
+    hconfig.socket = fake  # type: ignore
+    hconfig.os = fos  # type: ignore
+    try:
+        cfg = Config()
+        cfg.workers = workers
+        socks = cfg._create_sockets([bind], type_)
+    finally:
+        hconfig.socket, hconfig.os = saved_socket, saved_os
+    ok = len(socks) == 1 and len(fake.created) == 1
+    s = socks[0]
+    if want_fd is not None:
+        ok = ok and s.fileno_ == want_fd and s.bound is None
+    else:
+        ok = ok and s.family == want[0] and s.type == type_ and s.bound == want[1]
+    ok = ok and s.blocking is False
+    ok = ok and (_socket.SOL_SOCKET, _socket.SO_REUSEADDR, 1) in s.opts
+    return done(ok, bind=bind, dgram=dgram, workers=workers)
+
+
+# ---------------------------------------------------------------- root_path and response headers
+
+
+@harness(
+    "C19",
+    dom={"n": (0, 4), "c0": (0, 1), "c1": (0, 1), "c2": (0, 1), "c3": (0, 1)},
+    witnesses=[{"n": 3, "c0": 0, "c1": 1, "c2": 0, "c3": 0}],
+    budget=30,
+    bounds="root_path setter for every string of <=4 characters over {'/', 'a'}",
+    encodes=["hypercorn/config.py::Config.root_path"],
+)
+def root_path_normalised(n: int, c0: int, c1: int, c2: int, c3: int) -> bool:
+    """
+    pre: DOM(root_path_normalised, n=n, c0=c0, c1=c1, c2=c2, c3=c3)
+    post: _
+    """
+    enter()
+    n = conc(n, 0, 4)
+    cs = (c0, c1, c2, c3)
+    value = "".join("/a"[conc(cs[i], 0, 1)] for i in range(n))
+    cfg = Config()
+    cfg.root_path = value
+    got = cfg.root_path
+    ok = not got.endswith("/") and value.startswith(got) and set(value[len(got):]) <= {"/"}
+    return done(ok, value=value, got=got)
+
+
+_IMF = re.compile(rb"^(Mon|Tue|Wed|Thu|Fri|Sat|Sun), [0-3][0-9] (Jan|Feb|Mar|Apr|May|Jun|Jul|Aug|Sep|Oct|Nov|Dec) [0-9]{4} [0-2][0-9]:[0-5][0-9]:[0-6][0-9] GMT$")
+_STAMPS = [0, 1, 59, 86399, 86400, 951782400, 951868799, 1078099199, 1078099200, 2147483647, 4102444800, 784111777, 1709164800.5]
+
+
+@harness(
+    "C19",
+    dom={"date": "bool", "server": "bool", "alt": (0, 2), "proto": (0, 2), "ti": (0, len(_STAMPS) - 1)},
+    witnesses=[{"date": True, "server": True, "alt": 2, "proto": 1, "ti": 5}],
+    budget=60,
+    bounds="response_headers for all switch combinations x 0..2 alt-svc values x protocol {h11,h2,h3} x 13 boundary timestamps (epoch, day/leap-day/century boundaries, 2038, 2100, fractional)",
+    encodes=["hypercorn/config.py::Config.response_headers"],
+    stubs=["hypercorn.config.time returns the chosen timestamp; format_date_time is the real stdlib function"],
+)
+def response_headers_wellformed(date: bool, server: bool, alt: int, proto: int, ti: int) -> bool:
+    """
+    pre: DOM(response_headers_wellformed, date=date, server=server, alt=alt, proto=proto, ti=ti)
+    post: _
+    """
+    enter()
+    date = True if date else False
+    server = True if server else False
+    alt = conc(alt, 0, 2)
+    proto = ["h11", "h2", "h3"][conc(proto, 0, 2)]
+    stamp = _STAMPS[conc(ti, 0, len(_STAMPS) - 1)]
+    alts = ['h3=":443"; ma=3600', 'h3-29=":443"'][:alt]
+    cfg = Config()
+    cfg.include_date_header = date
+    cfg.include_server_header = server
+    cfg.alt_svc_headers = alts
+    saved = hconfig.time
+    hconfig.time = lambda: stamp  # type: ignore
+    try:
+        got = cfg.response_headers(proto)
+    finally:
+        hconfig.time = saved
+    want_names = ([b"date"] if date else []) + ([b"server"] if server else []) + [b"alt-svc"] * alt
+    ok = [n for n, v in got] == want_names
+    for n, v in got:
+        if n == b"date":
+            ok = ok and _IMF.match(v) is not None
+        elif n == b"server":
+            ok = ok and v == b"hypercorn-" + proto.encode()
+    ok = ok and [v for n, v in got if n == b"alt-svc"] == [a.encode() for a in alts]
+    return done(ok, date=date, server=server, alt=alt, proto=proto, stamp=stamp)
